@@ -320,6 +320,10 @@ pub fn memory_check(args: &[String], n: usize, seed: u64, long_lines: bool, many
                     if h > 0 && l.kind == LineKind::Meta {
                         continue;
                     }
+                    if l.kind == LineKind::HunkHeader {
+                        // ascending, distinct positions although the hunk bodies repeat
+                        l.text = gen::renumber_hunk_header(&l.text, 10 + produced * 37);
+                    }
                     if long_lines && matches!(l.kind, LineKind::Context | LineKind::Minus | LineKind::Plus) {
                         // minified files, data tables, lock files: lines beyond every per-line limit
                         // (max-syntax-highlighting-length 400, max-line-length 3000 are the defaults)
